@@ -324,3 +324,15 @@ pub enum EDiscPayload {
     Data(Vec<u8>) = 7,
     Pair { a: u16, b: u16 } = 1,
 }
+
+// ---- a parameter that occurs only inside another derived generic type: the field is not a bare parameter, so it is
+//      read in full-copy mode and the parameter is not substituted
+#[derive(Epserde, Debug, Clone, PartialEq)]
+pub struct NestGen<A: DeepCopy + 'static> { pub inner: P1<A>, pub k: u8 }
+pub type DNestGen = <NestGen<Vec<u32>> as DeserializeInner>::DeserType<'static>;
+pub type SNestGen = <NestGen<Vec<u32>> as SerializeInner>::SerType;
+// const generic with a default
+#[derive(Epserde, Debug, Clone, PartialEq)]
+pub struct CDefault<T, const N: usize = 4> { pub a: [u8; N], pub t: T }
+pub type DCDefault = <CDefault<Vec<u64>> as DeserializeInner>::DeserType<'static>;
+pub type DCDefault2 = <CDefault<String, 2> as DeserializeInner>::DeserType<'static>;
